@@ -118,6 +118,7 @@ static inline void wl_dtor(WList *l)
   l->len = 0;
 }
 #define WLIST_DTOR(l) wl_dtor(l)
+#define CONDVAR_INIT(c) ((c)->notified = 0)
 #define CONDVAR_NOTIFY_ONE(c) ((c)->notified++)
 #define CONDVAR_NOTIFY_ALL(c) ((c)->notified++)
 #define CONDVAR_WAIT(cv, m, callfn, clos) do { _Bool __p = callfn(clos); __CPROVER_assume(__p); } while (0)
@@ -347,6 +348,29 @@ static inline void hq_unlock_hook(Mutex *m)
   __CPROVER_requires(NOLOCKS(self) && hq_ok(self) && HQ_SMALL(self) && !g_cur_is_w) \
   __CPROVER_assigns(ENQ_FRAME) \
   ENQ_POST(2)
+
+/* ------------------------------------------------------------------ C10 / C20: constructors.  Every member has a defined value on exit whatever the
+ * storage held before (members without an initialiser stay nondeterministic in the extraction: that IS default-
+ * initialisation of std::atomic<int> before C++20): a default-, copy- or move-constructed queue is empty, reports
+ * empty, has notification enabled and holds no lock; pending events are not copied / moved. */
+#define HQCTOR_POST (self->queueEmptyCounter == 0 && self->queueNotifyCounter == 0 && self->queueList.len == 0 && self->freeList.len == 0 && \
+                     self->queueList.w < 0 && self->freeList.w < 0 && NOLOCKS(self) && self->queueListConditionVariable.notified == 0 && \
+                     self->queueList.guard == &self->queueListMutex && self->freeList.guard == &self->freeListMutex && self->queueListMutex.kind == 1 && self->freeListMutex.kind == 2)
+#define CONTRACT_DispatcherBase_ctor __CPROVER_assigns(self->opaque)
+#define CONTRACT_DispatcherBase_ctor_copy __CPROVER_assigns(self->opaque)
+#define CONTRACT_DispatcherBase_ctor_move __CPROVER_assigns(self->opaque, a0->opaque)
+#define CONTRACT_HQ_ctor \
+  __CPROVER_requires(__CPROVER_is_fresh(self, sizeof(HQ))) \
+  __CPROVER_assigns(__CPROVER_object_whole(self)) \
+  __CPROVER_ensures(HQCTOR_POST)
+#define CONTRACT_HQ_ctor_copy \
+  __CPROVER_requires(__CPROVER_is_fresh(self, sizeof(HQ)) && HQ_FRESH(other)) \
+  __CPROVER_assigns(__CPROVER_object_whole(self)) \
+  __CPROVER_ensures(HQCTOR_POST)
+#define CONTRACT_HQ_ctor_move \
+  __CPROVER_requires(__CPROVER_is_fresh(self, sizeof(HQ)) && HQ_FRESH(other)) \
+  __CPROVER_assigns(__CPROVER_object_whole(self), other->base_DispatcherBase.opaque) \
+  __CPROVER_ensures(HQCTOR_POST)
 
 #ifdef UNIT_HQUEUEI
 /* ------------------------------------------------------------------ the include-event form (unit hqueuei): the event is what the
